@@ -341,9 +341,9 @@ def _hetero(case, ctx, g):
     for nm, a_, r_ in zip(names, ggot, gref):
         if a_ is None and r_ is None:
             continue
-        a_ = torch.zeros(()) if a_ is None else a_
+        a_ = torch.zeros_like(r_) if a_ is None else a_
         r_ = torch.zeros_like(a_) if r_ is None else r_
-        ctx.close("mll_grad", a_, r_.expand(a_.shape), (1e-7, 1e-7), cls="mll:hetero:grad:" + ("noise_gp" if "noise_model" in nm else "model"), parameter=nm)
+        ctx.close("mll_grad", a_, r_, (1e-7, 1e-7), cls="mll:hetero:grad:" + ("noise_gp" if "noise_model" in nm else "model"), parameter=nm)
     ctx.cell({k: v for k, v in case.items() if k != "seed"}, nontrivial=True)
 
 
